@@ -312,6 +312,18 @@ example : NoChar '<' infoA ∧ NoSlash infoA ∧ XepForm infoA.form ∧ PlainFor
 example : (canon infoA).shape = (canon { infoA with form := some (formA.set 2 ⟨"os".toList, .text "Mac OS".toList⟩) }).shape ∧
     canon infoA ≠ canon { infoA with form := some (formA.set 2 ⟨"os".toList, .text "Mac OS".toList⟩) } := by decide +kernel
 example : verStringCode infoA = verStringSpec infoA := by decide +kernel
-example : ["jabber:x:conference".toList] ∈ [["jabber:x:conference".toList]] := by decide
+/-- all hypotheses of `ver_changes_when_altered` hold together (with the identity as a trivially injective `H`) -/
+example : ver id infoA ≠ ver id { infoA with form := some (formA.set 2 ⟨"os".toList, .text "Mac OS".toList⟩) } :=
+  ver_changes_when_altered id _ _ id (by decide) (by decide) (by decide) (by decide) (by decide +kernel) (by decide +kernel)
+
+/-- a client configuration meeting the hypotheses of `advertised_eq_xep_hash_of_answer` -/
+def cfgA : ClientCfg :=
+  { category := "client".toList, type := "pc".toList, name := "Caf\u00e9 1.0".toList,
+    baseFeatures := ["jabber:x:data".toList, "jabber:x:conference".toList],
+    extFeatures := [["http://jabber.org/protocol/disco#info".toList], ["jabber:iq:version".toList]],
+    extIdentities := [[], [⟨"automation".toList, "rpc".toList, [], []⟩]],
+    infoForm := some formA, node := "https://example.org/client".toList }
+example : (∀ s ∈ (capabilities cfgA).components, Bmp s) ∧ PlainForm cfgA.infoForm ∧ DistinctKeys cfgA.infoForm := by
+  refine ⟨by decide +kernel, by decide, by decide⟩
 
 end Qx.C20
